@@ -4,6 +4,7 @@ import CalVerif.Spec.PasswordSpec
 /-! Driver for C20 (password detection). One request line → one reply line.
 
     `ooxml <hex file>`                         → `<tag>`                 `ooxmlCheck` on the bytes of the file
+    `xlsfile <hex file>`                       → `<tag>`                 `xlsOpen` on the bytes of the file
     `xls <hex workbook stream> <recs>`         → `<tagS> <tagR>`         `xlsGlobalsStream` on the stream bytes,
                                                                          `xlsGlobals` on the record list
           recs: `,`-separated `<typ>:<hex payload>` (`-` = empty payload); `_` = no record
@@ -65,6 +66,10 @@ def handle (line : String) : String :=
   | ["ooxml", hex] =>
     match Wire.bytesOfHex hex with
     | some file => tg (ooxmlCheck file)
+    | none => "bad-op"
+  | ["xlsfile", hex] =>
+    match Wire.bytesOfHex hex with
+    | some file => tg (xlsOpen Arms.quiet file)
     | none => "bad-op"
   | ["xls", hex, recs] =>
     match Wire.bytesOfHex hex, parseRecs recs with
